@@ -106,6 +106,7 @@ func (h *histRun[G, S]) redistribute(cur *epoch[G, S], prev []sim.ID, next *acSp
 	rc := h.subRC()
 	pr := newProtoRun(rc, quorum, true)
 	prevSet := idSet(prev)
+	anchorID := prev[h.w.IntN(len(prev))] // any driving previous holder may be the trusted anchor
 	for _, id := range quorum {
 		id := id
 		var prevShard *mpc.BaseShard[G, S]
@@ -124,7 +125,7 @@ func (h *histRun[G, S]) redistribute(cur *epoch[G, S], prev []sim.ID, next *acSp
 			}
 			var opts []redistribute.Option
 			if anchor && !prevSet[id] {
-				opts = append(opts, redistribute.WithTrustedAnchorID(prev[0]))
+				opts = append(opts, redistribute.WithTrustedAnchorID(anchorID))
 			}
 			r, err := redistribute.NewRunner(sctx, quorumOf(prev), prevShard, next.lib, rnd, opts...)
 			if err != nil {
